@@ -118,6 +118,7 @@ func (rr *RdbReplay) Replay(e *rdb.BinEntry) (err error) {
 			params = append(params, e.Freq)
 		}
 	}
+	replacing := false
 RESTORE:
 	s, err := common.String(rr.Client.Do("restore", params...))
 	if err != nil {
@@ -131,6 +132,7 @@ RESTORE:
 					log.Infof("replace key: %s", e.Key)
 				}
 				params = append(params, "REPLACE")
+				replacing = true
 				goto RESTORE
 			case "ignore":
 				if rr.KeyExistsLog {
@@ -141,8 +143,21 @@ RESTORE:
 			}
 		} else if strings.Contains(err.Error(), "Bad data format") { // cluster.c:restoreCommand
 			log.Warn(err, " try to restoreBigRdbEntry")
+			// the refused RESTORE left the key as it was : under the replace policy the old value is still there and
+			// has to go before the native commands add to it, and the expiry RESTORE would have set is set here
+			if replacing {
+				if _, err := common.Int64(rr.Client.Do("del", e.Key)); err != nil {
+					return fmt.Errorf("del exist key error : key(%s), error(%w)", e.Key, err)
+				}
+			}
 			if err := restoreBigRdbEntry(rr.Client, e); err != nil {
 				return err
+			}
+			if e.ExpireAt != 0 {
+				r, err := common.Int64(rr.Client.Do("pexpire", e.Key, ttlms))
+				if err != nil && r != 1 {
+					return fmt.Errorf("expire key error : key(%s), error(%w)", e.Key, err)
+				}
 			}
 		} else {
 			return fmt.Errorf("restore command error : key(%s), error(%w)", e.Key, err)
